@@ -74,6 +74,52 @@ RULE = ("rvb-updates: Ising samplers (frustrated triangle, triangle with unequal
         "Non-trivial = adjacent duplicate present / >= 2 positions / n > 0 with unequal totals / run length > 0 / >= 3 container operations; distinct = distinct input line.")
 
 
+def kernel_hypotheses(ck, cases):
+    """The decidable hypotheses of the kernel theorems (QmcProps/C03Kernel.lean: `MoveOK` of `rvbK`,
+    `ising_timestep_invariant_rvb_cut`) evaluated by the model (driver kind `khyp`) on every traced proposal of the
+    real code: `RegionOK` of the traced region must hold before (and after, when applied); an applied update must satisfy
+    `moveOKb` (move relation, Good, RegionOK, neither sweep abandoned) unless the reverse sweep is abandoned -- those and
+    the proposals abandoned on `before` are the ones the kernel idealises (counted, STATs in the evidence)."""
+    if not cases:
+        return
+    outs = ck.driver("drv_c03", ["khyp " + c["input"][4:] for c in cases])
+    n = acc = rok_bad = ab_before = ab_after = inside = move_bad = 0
+    first_bad = None
+    for c, o in zip(cases, outs):
+        t = o.split()
+        if len(t) != 5:
+            rok_bad += 1
+            first_bad = first_bad or (c["input"][:400], o)
+            continue
+        n += 1
+        rb, ra, nb, na, mv = t
+        if rb != "1" or ra == "0":
+            rok_bad += 1
+            first_bad = first_bad or (c["input"][:400], o)
+        if nb == "0":
+            ab_before += 1
+        if ra != "-":
+            acc += 1
+            if na == "0":
+                ab_after += 1
+            if mv == "1":
+                inside += 1
+            elif na == "1" and nb == "1":
+                move_bad += 1
+                first_bad = first_bad or (c["input"][:400], o)
+    ck.stats["kernel_hyp_proposals"] = n
+    ck.stats["kernel_hyp_applied_updates"] = acc
+    ck.stats["kernel_hyp_applied_with_MoveOK"] = inside
+    ck.stats["kernel_hyp_sweep_abandoned_before"] = ab_before      # p_to_flip = 0 by the EPSILON exit: rejected by the code and by rvbK
+    ck.stats["kernel_hyp_applied_reverse_sweep_abandoned"] = ab_after  # applied by the code, transition idealised to 0 in rvbK
+    ck.oblige("every traced proposal satisfies the decidable hypothesis RegionOK of ising_timestep_invariant_rvb_cut "
+              "(before, and after when applied): %d proposals" % n, rok_bad == 0,
+              "%d violations; first: %r" % (rok_bad, first_bad))
+    ck.oblige("every applied update whose sweeps are not abandoned satisfies MoveOK (moveOKb: move relation, Good, RegionOK): "
+              "%d of %d applied inside, %d with the reverse sweep abandoned" % (inside, acc, ab_after), move_bad == 0,
+              "%d violations; first: %r" % (move_bad, first_bad))
+
+
 def main(ck):
     pure_fns.run(ck)   # source->Lean translation of pure functions, re-proved equal to the hand model (scoped to this property's groups)
     if ck.lake_build(LEAN_TARGETS):
@@ -83,6 +129,7 @@ def main(ck):
         ck.correspond("helpers", "drv_c03", cases)
         cases = ck.harness("c03", ["rvb"])
         ck.correspond("rvb-updates", "drv_c03", [c for c in cases if not c["input"].startswith("region ")])
+        kernel_hypotheses(ck, [c for c in cases if c["input"].startswith("rvb ")])
         # the exact proposal model (QmcModel/RvbRegion.lean) replayed on the recorded draws of every proposed update
         ck.correspond("region", "drv_c03", [c for c in cases if c["input"].startswith("region ")])
         # the RVB step embedded in `timestep` (its own copies of the weight closures) vs the explicit decomposition
